@@ -1,9 +1,10 @@
 /-
 C16 (evaluator part) — what one execution can do to values that outlive it.  The heap cells of the predefined
 values are created once (`initVM`); the evaluator only ever overwrites a cell with a cell of the same kind, and
-never a method, text, truth-value, 空 or exception-value cell at all.  So 真 假 空 显示 取随机数 (and library
+never a method, truth-value, 空 or exception-value cell at all.  So 真 假 空 显示 取随机数 (and library
 functions) cannot be altered by any program; 数值 (a number cell) and 异常 (a type cell) can — which is why the
-interpreter builds those two afresh for every execution.
+interpreter builds those two afresh for every execution.  (A text cell can be altered too: 转换数值 stores the rewritten
+text back into its receiver; no predefined value is a text.)
 By the fuel induction `allPres` (Proofs/Balance*.lean) for the relation `KS` (Proofs/FnStable.lean).
 -/
 import ZnVerif.Proofs.FnStable
@@ -51,10 +52,10 @@ theorem fn_cells_immutable_program (fuel : Nat) (p : Program) (inputs : List (St
     FnStable s (runProgram fuel p inputs s).2 :=
   .of_KS ((ks_runProgram fuel p inputs).run s)
 
-/-- the general fact behind it: every existing cell keeps its kind, and cells of the kinds method / text / truth
+/-- the general fact behind it: every existing cell keeps its kind, and cells of the kinds method / truth
 value / 空 / exception value keep their content — for every step and for whole executions.  (Cells of the other
-kinds — number, list, dictionary, object, type — are overwritten by 自增, 后增, 写入, property assignment, constructor
-definition, …, always with a cell of the same kind.) -/
+kinds — number, text, list, dictionary, object, type — are overwritten by 自增, 转换数值, 后增, 写入, property assignment,
+constructor definition, …, always with a cell of the same kind.) -/
 theorem cells_keep_kind (fuel : Nat) (p : Program) (inputs : List (String × Cell ν)) (s : VM ν) (i : Nat)
     (c : Cell ν) (hc : s.heap[i]? = some c) :
     ∃ c', (runProgram fuel p inputs s).2.heap[i]? = some c' ∧ kindOf c' = kindOf c ∧
@@ -120,6 +121,10 @@ example : (runProgram 10 prog [] (initVM (ν := Int) ())).2.heap[0]? = some (.bo
 holds a 5 at address 7 turns 数值 into 5 (so a shared 数值 would leak between executions) -/
 example : (builtinMethod 1 6 "自增" [7] { initVM (ν := Int) () with heap := (initVM (ν := Int) ()).heap.push (.num 5) }).2.heap[6]?
     = some (.num 5) := rfl
+
+/-- likewise a text cell: 转换数值 leaves `1e3` where `1*^3` was -/
+example : (builtinMethod 1 7 "转换数值" [] { initVM (ν := Int) () with heap := (initVM (ν := Int) ()).heap.push (.str "1*^3") }).2.heap[7]?
+    = some (.str "1e3") := by rfl
 
 example : ∃ c', (evalStmt 3 (.empty 0) s0).2.heap[0]? = some c' ∧ kindOf c' = Kind.exc ∧ c' = .exc "boom" := by
   obtain ⟨c', h1, h2, h3⟩ := cells_keep_kind_step 3 (.empty 0) s0 0 (.exc "boom") rfl
